@@ -244,6 +244,10 @@ def main():
         ms = [m for m in ms if (m["file"], m["line"], m["new"]) in keys]
     if a.only:
         ms = [m for m in ms if re.search(a.only, m["file"] + ":" + m["op"])]
+    donef = os.path.join(a.out, a.results)
+    if os.path.exists(donef) and not a.recheck:
+        done = {(r["file"], r["line"], r["new"]) for r in (json.loads(l) for l in open(donef))}
+        ms = [m for m in ms if (m["file"], m["line"], m["new"]) not in done]
     ms = ms[a.offset::a.stride]
     if a.limit:
         ms = ms[:a.limit]
